@@ -553,7 +553,7 @@ func runC06(c *Ctx) {
 		// nextHeight initialisation: φ(min(next−1, precommitted) under err == nil, precommitted under err != nil)
 		okInit := false
 		detail := ""
-		for _, s := range CallsIn(gac, "collection/ints.Min[uint32]") {
+		for _, s := range append(CallsIn(gac, "collection/ints.Min[uint32]"), CallsIn(gac, "builtin:min")...) {
 			t := T(s.Call.Value()).String()
 			okNil, _ := gf.NilErrAt(s.Call.Block(), IsResult(nextH, 1))
 			okInit = okNil && strings.Contains(t, "NextHeightBFTParameters") && strings.Contains(t, " - 1)") && strings.Contains(t, "GetBFTHeights")
